@@ -188,7 +188,7 @@ PROPS = {
     "C12": {
         "title": "Results do not depend on storage, memory-manager or deletion policy",
         "rules": [on_program(rules_storage.rule_chunkptr), on_program(rules_storage.rule_layout), callers_for("C12"), on_program(rules_canon.rule_hash),
-                  on_program(rules_sibling.rule_small_hole_threshold), on_program(rules_storage.rule_threshold_first), on_program(rules_sibling.rule_large_hole_threshold), on_program(rules_storage.rule_singleton_scan)],
+                  on_program(rules_sibling.rule_small_hole_threshold), on_program(rules_storage.rule_threshold_first), on_program(rules_sibling.rule_large_hole_threshold), on_program(rules_storage.rule_singleton_scan), on_program(rules_storage.rule_coalesce)],
         "explanation": STRUCTURAL + ". C12: threshold clauses of the hole managers (the small-hole threshold is the same quantity at every site; the large-hole threshold is raised before the holes are re-classified against it), stale-chunk-pointer clause (a pointer from getChunkAddress is not used after a call that can reach requestChunk — a bug of exactly that shape shows under the reallocating managers and not under malloc style) "
                        "and layout clause (full-only, sparse-only and either-form writers and readers of a packed node agree on the region bases and on the hash recipe, so the storage flag cannot change what is read back).",
         "assumptions": ["the relational statement itself (same results under every policy combination) is a hyper-property over configurations and is not decided",
@@ -236,7 +236,7 @@ PROPS = {
         "title": "Misuse is rejected with the documented error and leaves all functions intact",
         "rules": [on_program(r) for r in rules_guard.RULES] + [rules_ftype.rule_entry, rules_orphan.rule_orphan, rules_orphan.rule_iterator_init,
                   # "use of an edge whose forest was destroyed raises an error" rests on the registry discipline
-                  on_program(rules_life.rule_forest_dtor), on_program(rules_life.rule_unregister), on_program(rules_life.rule_registry), on_program(rules_guard.rule_partial_shortcut), on_program(rules_layer.rule_result_by_value)],
+                  on_program(rules_life.rule_forest_dtor), on_program(rules_life.rule_unregister), on_program(rules_life.rule_registry), on_program(rules_life.rule_op_registration), on_program(rules_guard.rule_partial_shortcut), on_program(rules_layer.rule_result_by_value)],
         "explanation": STRUCTURAL + ". C16: every misuse named by the property has a check that dominates the dangerous use and throws the documented code: constructor-chain "
                        "domain/shape checks, zero-divisor and infinity tests, terminal overflow, value type, null operation, exhausted iterator.",
         "assumptions": ["state after an error thrown mid-recursion (partially built results) is not decided", "only the enumerated entry points and partial operations are covered"],
